@@ -2,8 +2,11 @@ package harness
 
 import (
 	"encoding/json"
+	"fmt"
 	"os"
 	"testing"
+
+	"github.com/onflow/atree"
 )
 
 func TestC01(t *testing.T) { runRapid(t, "C01") }
@@ -19,7 +22,6 @@ func TestC08(t *testing.T) { runRapid(t, "C08") }
 func TestC03(t *testing.T) { runRapid(t, "C03") }
 func TestC11(t *testing.T) { runRapid(t, "C11") }
 func TestC12(t *testing.T) { runRapid(t, "C12") }
-func TestC05(t *testing.T) { runRapid(t, "C05") }
 func TestC06(t *testing.T) { runRapid(t, "C06") }
 func TestC07(t *testing.T) { runRapid(t, "C07") }
 func TestC09(t *testing.T) { runRapid(t, "C09") }
@@ -73,4 +75,98 @@ func FuzzC19(f *testing.F) {
 			t.Fatalf("property C19 violated: %v", err)
 		}
 	})
+}
+
+// TestC05 adds, on shard 0, the exhaustive sweep of every legal slab size: the public limits must
+// leave room for two maximal elements in a slab of the configured size (so that a full slab can
+// always be split into valid halves) and must be monotone.
+func TestC05(t *testing.T) {
+	if idx := os.Getenv("VERIF_SHARD_INDEX"); idx == "" || idx == "0" {
+		st := newCaseStats()
+		var prevA, prevM, prevK uint32
+		n := 0
+		for s := uint32(256); s <= 32768; s++ {
+			min, max := atree.VerifSetSlabSize(s)
+			a, m, k := atree.MaxInlineArrayElementSize(), atree.MaxInlineMapElementSize(), atree.MaxInlineMapKeySize()
+			fail := func(f string, args ...any) {
+				rp := replayPathFor("C05")
+				_ = os.MkdirAll(ReplayDir(), 0o755)
+				msg := fmt.Sprintf("slab size %d: ", s) + fmt.Sprintf(f, args...)
+				b, _ := json.MarshalIndent(map[string]any{"property": "C05", "failure": msg, "case": map[string]any{"prop": "C05", "cfg": map[string]any{"slab": s, "roots": []any{}}, "ops": []any{}}}, "", " ")
+				_ = os.WriteFile(rp, b, 0o644)
+				t.Fatalf("property C05 violated: %s\nVERIF-REPLAY %s", msg, rp)
+			}
+			if atree.VerifSlabSize() != s {
+				fail("configured size reads back as %d", atree.VerifSlabSize())
+			}
+			if min != s/2 || uint64(max) != uint64(s)*3/2 {
+				fail("band is [%d,%d], expected [%d,%d]", min, max, s/2, uint64(s)*3/2)
+			}
+			// array data slab: 21-byte non-root prefix + two maximal elements fit in the target size
+			if 21+2*uint64(a) > uint64(s) {
+				fail("two maximal array elements (%d bytes each) plus the slab prefix exceed the slab size", a)
+			}
+			// map data slab: 18-byte prefix + 8-byte elements prefix + two maximal elements with their digests
+			if 18+8+2*(uint64(m)+8) > uint64(s) {
+				fail("two maximal map elements (%d bytes each) plus digests and prefixes exceed the slab size", m)
+			}
+			// a key and a value of key size both fit one element; the key limit leaves room for a reference-sized value
+			if 2*uint64(k)+1 > uint64(m) || uint64(k)+1+19 > uint64(m) {
+				fail("key limit %d does not fit the element limit %d", k, m)
+			}
+			if a == 0 || m == 0 || k == 0 {
+				fail("a limit is zero (%d %d %d)", a, m, k)
+			}
+			if a < prevA || m < prevM || k < prevK {
+				fail("limits are not monotone in the slab size (%d %d %d after %d %d %d)", a, m, k, prevA, prevM, prevK)
+			}
+			prevA, prevM, prevK = a, m, k
+			n++
+		}
+		atree.VerifSetSlabSize(1024)
+		st.label("exhaustive_slab_size_sweep")
+		st.Add("slab_sizes_swept", n)
+		Emit("C05", map[string]any{"exhaustive": "every legal slab size 256..32768: band and element-limit arithmetic"}, 0, st, true, registry["C05"].Rule)
+	}
+	runRapid(t, "C05")
+}
+
+// TestMinimize shrinks the engine case of a replay file further (VERIF_REPLAY in, same file rewritten).
+func TestMinimize(t *testing.T) {
+	path := os.Getenv("VERIF_REPLAY")
+	if path == "" {
+		t.Skip("VERIF_REPLAY not set")
+	}
+	b, err := os.ReadFile(path)
+	if err != nil {
+		t.Fatal(err)
+	}
+	var w struct {
+		Property string          `json:"property"`
+		Case     json.RawMessage `json:"case"`
+	}
+	if err := json.Unmarshal(b, &w); err != nil {
+		t.Fatal(err)
+	}
+	p := registry[w.Property]
+	if p == nil {
+		t.Fatalf("unknown property %q", w.Property)
+	}
+	c, ok := p.New().(*Case)
+	if !ok {
+		t.Skip("not an engine case")
+	}
+	if err := json.Unmarshal(w.Case, c); err != nil {
+		t.Fatal(err)
+	}
+	m, msg := minimizeCase(p, c)
+	if msg == "" {
+		t.Logf("case does not fail: nothing to minimise")
+		return
+	}
+	out, _ := json.MarshalIndent(map[string]any{"property": w.Property, "failure": msg, "case": m}, "", " ")
+	if err := os.WriteFile(path, out, 0o644); err != nil {
+		t.Fatal(err)
+	}
+	t.Logf("minimised from %d to %d ops", len(c.Ops), len(m.Ops))
 }
